@@ -135,9 +135,21 @@ pub fn run_one(scn: &Scenario, idx: u64, sim: Sim) -> RunEnd {
     }
 }
 
+static RUN_PRELUDE: std::sync::OnceLock<fn()> = std::sync::OnceLock::new();
+
+/// A function called on the worker thread before every run: per-thread configuration a harness
+/// keeps (thread-locals) must be reset there, or a run would depend on which run the thread
+/// happened to execute before it.
+pub fn set_run_prelude(f: fn()) {
+    let _ = RUN_PRELUDE.set(f);
+}
+
 fn run_one_unfiltered(scn: &Scenario, idx: u64, sim: Sim) -> RunEnd {
     LAST_PANIC.with(|p| *p.borrow_mut() = None);
     PANIC_LOG.with(|p| p.borrow_mut().clear());
+    if let Some(f) = RUN_PRELUDE.get() {
+        f();
+    }
     let s2 = sim.clone();
     let r = catch_unwind(AssertUnwindSafe(|| (scn.run)(&s2, idx)));
     match r {
